@@ -192,6 +192,11 @@ class Executor(Engine):
         ctx = self.new_ctx(st, s.lineno)
         self.hint_literal(s.value, s.targets[0])
         v_ = s.value
+        if isinstance(v_, ast.Lambda) and len(s.targets) == 1 and isinstance(s.targets[0], ast.Name):
+            # name = lambda ..: kept as syntax; a later call name(args) is the body with the parameters bound
+            st2 = st.fork()
+            st2.env['__lambda__' + s.targets[0].id] = v_
+            return [(st2, None)]
         if isinstance(v_, ast.Call) and isinstance(v_.func, ast.Attribute) and v_.func.attr == 'pop' and len(v_.args) == 1 \
                 and not v_.keywords and isinstance(v_.func.value, ast.Name) and v_.func.value.id in st.env \
                 and isinstance(st.env[v_.func.value.id].ty, TDict):
